@@ -154,3 +154,11 @@ Theorem C15_loc_is_label_at_iloc : forall ismin axis skipna r cols index columns
   res_all (map (loc_of (if axis =? 0 then index else columns)) os).
 Proof. exact S_loc_is_label_at_iloc. Qed.
 Print Assumptions C15_loc_is_label_at_iloc.
+
+(* The two renderings of the regenerated table agree; cumsum / cumprod pass no dtype (Frame._ufunc_shape_skipna
+   then computes in NumPy's own result dtype, as the model assumes). *)
+Theorem C15_table_rows_agree :
+  (forall f, In (rfunc_name f, c15_table f) c15_rows) /\
+  (forall name fl, In (name, fl) c15_rows -> (name = "cumsum" \/ name = "cumprod")%string -> fl_dtypes fl = DsEmpty).
+Proof. exact table_rows_agree. Qed.
+Print Assumptions C15_table_rows_agree.
